@@ -1,16 +1,63 @@
 /-
 C01 — decoding never crashes or hangs.  Property theorems only.
-(PARTIAL: `panic` / `fuel` unreachability is proved per component below — the start-code search and PEI
-loops cannot run out of fuel, i.e. cannot loop without consuming input; quantizer arithmetic, candidate
-prediction and the post-processing stages cannot panic.  The composition into one theorem about
-`decodeNextPicture` is not yet proved; for whole decode calls the absence of panics and hangs is covered by
-the correspondence runs on malformed streams after random histories, in-process and in an isolated worker.)
+
+The model returns `panic` exactly where the Rust code (overflow checks and debug assertions on) would panic — every slice
+and Vec index, checked arithmetic, division, unwrap, assertion — and `fuel` when one of its data-driven loops would exceed a
+bound that is a function of the number of unread bits.  The theorems below say that neither outcome is reachable: for every
+option set, every history of decode calls and clean-ups (so every reference-picture state and every picture-size change),
+and every bit string, `decode_next_picture` returns the new state or an error value.
+
+What the model cannot exhibit and is observed by the harness only: allocation failure (sizes too large for memory are
+outside the property), stack exhaustion, aborts, wall-clock time.
 -/
 import H263V.Model.State
+import H263V.Model.System
+import H263V.Lemmas.DecodeTotal
 import H263V.Thm.C11
 import H263V.Thm.C12
 namespace H263V.Thm.C01
 open H263V H263V.State H263V.Mv
+
+/-- **One call.**  In any decoder state whose stored pictures have planes of the sizes their formats prescribe (an
+invariant of every history, next theorem), on any input bits, `decode_next_picture` returns: it neither panics nor runs out
+of fuel — no index out of bounds, no arithmetic overflow, no division by zero, no unwrap on `None`, no unbounded loop. -/
+theorem decode_never_crashes (s : State) (hs : Lemmas.PlaneInv.StoreOK s) (c : Cur) :
+    (∃ s' c', decodeNextPicture s c = .ok (s', c')) ∨ (∃ e, decodeNextPicture s c = .err e) := by
+  have := Lemmas.DecodeTotal.decodeNextPicture_returns s hs c
+  cases h : decodeNextPicture s c with
+  | ok r => exact Or.inl ⟨r.1, r.2, rfl⟩
+  | err e => exact Or.inr ⟨e, rfl⟩
+  | panic m => rw [h] at this; simp [Out.returns] at this
+  | fuel => rw [h] at this; simp [Out.returns] at this
+
+/-- **Every history.**  Starting from a fresh decoder with any options, after any sequence of data deliveries, decode calls
+(successful or failing) and clean-ups, no operation ever crashes or hangs. -/
+theorem history_never_crashes (o : DecOpts) (c0 : Cur) (ops : List System.Op) :
+    ∀ r ∈ (System.run ⟨State.new o, c0⟩ ops).2, r ≠ System.Res.crashed :=
+  Lemmas.DecodeTotal.run_not_crashed ops ⟨State.new o, c0⟩ (Lemmas.PlaneInv.new_storeOK o)
+
+/-- The invariant the first theorem needs holds after every history. -/
+theorem invariant_of_history (o : DecOpts) (c0 : Cur) (ops : List System.Op) :
+    Lemmas.PlaneInv.StoreOK (System.run ⟨State.new o, c0⟩ ops).1.st := by
+  suffices h : ∀ (ops : List System.Op) (i : System.Inst), Lemmas.PlaneInv.StoreOK i.st → Lemmas.PlaneInv.StoreOK (System.run i ops).1.st from
+    h ops _ (Lemmas.PlaneInv.new_storeOK o)
+  intro ops
+  induction ops with
+  | nil => intro i hi; exact hi
+  | cons op rest ih => intro i hi; exact ih _ (Lemmas.DecodeTotal.step_storeOK i hi op)
+
+/-- The macroblock loop cannot spin: with the fuel `decode_next_picture` gives it (unread bits + macroblocks of the picture
++ 2) it never runs out, because every iteration either consumes a bit or adds a macroblock. -/
+theorem macroblock_loop_terminates (d : DecOpts) (hdr : PicHdr) (dims : Option (Nat × Nat)) (running w mbH : Nat) (hw : 1 ≤ w)
+    (l : Loop) (hl : Lemmas.DecodeTotal.LoopInv w mbH l) :
+    (mbLoop d hdr dims running w (w * mbH) (l.cur.bits.length + w * mbH + 2) l).returns = true :=
+  (Lemmas.DecodeTotal.mbLoop_ok d hdr dims running w mbH hw _ l hl
+    (by unfold Lemmas.DecodeTotal.measure; omega)).returns
+
+/-- non-vacuity: the invariant is met by a fresh decoder, and a concrete (truncated) input is rejected with an error value -/
+example : Lemmas.PlaneInv.StoreOK (State.new { sorenson := true, scalability := false }) := Lemmas.PlaneInv.new_storeOK _
+example : decodeNextPicture (State.new { sorenson := true, scalability := false }) ⟨[false, false, true], 0⟩ = .err .eof := by
+  decide
 
 theorem skipBits_cases (n : Nat) (c : Cur) :
     (skipBits n c = .err .eof ∧ c.bits.length < n) ∨
@@ -63,21 +110,8 @@ theorem recognizeStartCode_returns (inError : Bool) (c : Cur) : (recognizeStartC
 /-- The quantizer update cannot overflow its i8 for any quantizer a header or an earlier update can produce. -/
 theorem quant_update_total (q : Nat) (hq : q ≤ 31) (dq : Option Int)
     (hd : dq = none ∨ dq = some (-2) ∨ dq = some (-1) ∨ dq = some 1 ∨ dq = some 2) :
-    ∃ q', updateQuant q dq = .ok q' ∧ 1 ≤ q' ∧ q' ≤ 31 := by
-  have key : ∀ d : Int, -2 ≤ d → d ≤ 2 → ∃ q', updateQuant q (some d) = .ok q' ∧ 1 ≤ q' ∧ q' ≤ 31 := by
-    intro d h1 h2
-    unfold updateQuant
-    simp only [Option.getD_some]
-    have h3 : ¬ (q > 127 ∨ (q : Int) + d < -128 ∨ (q : Int) + d > 127) := by omega
-    simp only [h3, ↓reduceIte]
-    refine ⟨_, rfl, ?_, ?_⟩ <;> (repeat' split) <;> omega
-  rcases hd with h | h | h | h | h <;> subst h
-  · have := key 0 (by omega) (by omega)
-    simpa [updateQuant] using this
-  · exact key _ (by omega) (by omega)
-  · exact key _ (by omega) (by omega)
-  · exact key _ (by omega) (by omega)
-  · exact key _ (by omega) (by omega)
+    ∃ q', updateQuant q dq = .ok q' ∧ 1 ≤ q' ∧ q' ≤ 31 :=
+  Lemmas.DecodeTotal.quant_update_total q hq dq hd
 
 /-- Candidate prediction never indexes out of bounds at any position of any picture width ≥ 1. -/
 theorem predict_candidate_total (pv : Array Mv4) (cur : Mv4) (w row col index : Nat) (hw : 1 ≤ w) (hc : col < w)
